@@ -40,6 +40,7 @@ from pokerkit.state import (
     HoleCardsShowingOrMucking,
     HoleDealing,
     Mode,
+    NoOperation,
     StandingPatOrDiscarding,
     State,
 )
@@ -1176,7 +1177,8 @@ class HandHistory(Iterable[State]):
 
                     board_cards += ''.join(map(repr, operation.cards))
 
-                board_dealing_status = isinstance(operation, BoardDealing)
+                if not isinstance(operation, NoOperation):
+                    board_dealing_status = isinstance(operation, BoardDealing)
 
                 hole_cards = '|'.join(map(''.join, raw_hole_cards))
                 match_state = (
@@ -1267,7 +1269,8 @@ class HandHistory(Iterable[State]):
 
                     board_cards += ''.join(map(repr, operation.cards))
 
-                board_dealing_status = isinstance(operation, BoardDealing)
+                if not isinstance(operation, NoOperation):
+                    board_dealing_status = isinstance(operation, BoardDealing)
 
         hole_cards = '|'.join(map(''.join, raw_hole_cards))
         raw_payoffs = []
